@@ -109,6 +109,7 @@ def run(chk):
     chk.call(r1_units, chk)
     chk.call(r2_records, chk)
     chk.call(r3_frames, chk)
+    chk.call(r5_empty_shape, chk)
     def r4_forwarding(chk):
         n = forwarding(chk, "C08.R4", "source_units", "the file's declared unit is ignored and the coordinates are taken as Angstrom")
         chk.require(n >= 8, "loader wrappers with source_units not found")
@@ -497,7 +498,24 @@ def r2_records(chk):
                "(a.x, a.y, a.z)", "XYZBlock.coords does not return (x, y, z) per atom")
     # consumer
     src = norm(yx.node)
-    chk.decide("Element.get(a.symbol)" in src and "coords=xyzblock.coords" in src.replace(" ", "").replace("coords=xyzblock.coords", "coords=xyzblock.coords") or "coords=xyzblock.coords" in src.replace(" ", ""),
+    from ..util import strip_shape_wrappers
+
+    cvals = [kwarg(c, "coords") for c in walk_no_nested(yx.node) if isinstance(c, ast.Call) and call_name(c) == "cls" and kwarg(c, "coords") is not None]
+    from_block = len(cvals) == 1 and norm(strip_shape_wrappers(cvals[0])) == "xyzblock.coords"
+    lv = [norm(l.target.elts[-1] if isinstance(l.target, ast.Tuple) else l.target) for l in walk_no_nested(yx.node)
+          if isinstance(l, ast.For) and "xyzblock.atoms" in norm(l.iter)]
+    def _from_symbol(arg):
+        if any(norm(arg) == f"{v}.symbol" for v in lv):
+            return True
+        if isinstance(arg, ast.Name):  # `match a.symbol: ... case symbol: Element.get(symbol)`
+            for mt in [m_ for m_ in walk_no_nested(yx.node) if isinstance(m_, ast.Match) and any(norm(m_.subject) == f"{v}.symbol" for v in lv)]:
+                for cs in mt.cases:
+                    if isinstance(cs.pattern, ast.MatchAs) and cs.pattern.pattern is None and cs.pattern.name == arg.id and any(x is arg for b in cs.body for x in ast.walk(b)):
+                        return True
+        return False
+
+    elem_from_symbol = any(_from_symbol(c.args[0]) for c in walk_no_nested(yx.node) if isinstance(c, ast.Call) and norm(c.func) == "Element.get" and c.args)
+    chk.decide(elem_from_symbol and from_block,
                "C08.R2", f"{yx.key}:consumes-symbol-and-coords", yx.where(), "element from a.symbol, coordinates from block.coords",
                "yield_from_xyz does not take the element from the symbol column and the coordinates from the block")
     hdr = [s for s in walk_no_nested(rx.node) if isinstance(s, ast.Assign) and norm(s.targets[0]) == "n_atoms"]
@@ -564,6 +582,59 @@ def r3_frames(chk):
     src = norm(init.node)
     chk.decide("self.coords = [c.coords for c in other]" in src, "C08.R3", f"{init.key}:list-order-kept", init.where(), "coords = [c.coords for c in other]",
                "the list constructor of ConformerEnsemble does not take the coordinates of the given structures in list order")
+
+
+def r5_empty_shape(chk):
+    """0 atoms is a geometry too (the property quantifies over 0..n atoms).  The coordinates read from an xyz block go into an (n, 3)
+    array by broadcasting assignment; a plain list of rows has its row width only through its elements, so the empty list is a (0,)
+    array and cannot be broadcast into (0, 3).  The value handed over must carry its two-dimensional shape explicitly."""
+    from ..canon import Env
+
+    prog = chk.prog
+    fy = prog.func(f"{GEO}:CartesianGeometry.yield_from_xyz")
+    chk.analysed(fy)
+    ctor = [c for c in walk_no_nested(fy.node) if isinstance(c, ast.Call) and call_name(c) == "cls" and kwarg(c, "coords") is not None]
+    sets = [s_ for s_ in walk_no_nested(fy.node) if isinstance(s_, ast.Assign) and any(p_.endswith(".coords") or p_.endswith("._coords") for p_ in stored_paths(s_))]
+    sites = [(c, kwarg(c, "coords")) for c in ctor] + [(s_, s_.value) for s_ in sets]
+    chk.require(len(sites) >= 1, f"{fy.key}: the place where the block's coordinates enter the geometry was not found")
+    env = Env(fy.node)
+    blk = prog.cls("molli.parsing.xyz:XYZBlock")
+    for node, val in sites:
+        e = env.expand(val, at=node)
+        # a property of the parsed block: look at what it returns
+        shown = norm(e)
+        if isinstance(e, ast.Attribute) and isinstance(e.value, ast.Name):
+            mem = blk.members.get(e.attr)
+            if mem is not None and mem.getter is not None:
+                rets = [r for r in walk_no_nested(mem.getter) if isinstance(r, ast.Return) and r.value is not None]
+                if len(rets) == 1:
+                    e = Env(mem.getter).expand(rets[0].value, at=rets[0])
+                    shown = f"{shown} = {short(e, 50)}"
+
+        def two_d(x):
+            if isinstance(x, ast.Call):
+                cn = call_name(x) or ""
+                tail = cn.split(".")[-1]
+                if tail == "reshape":
+                    shape = x.args[1:] if cn in ("np.reshape", "numpy.reshape") else x.args
+                    flat = [y for a_ in shape for y in (a_.elts if isinstance(a_, ast.Tuple) else [a_])]
+                    return len(flat) == 2 and norm(flat[-1]) == "3"
+                if tail in ("empty", "zeros", "full", "ones") and x.args and isinstance(x.args[0], ast.Tuple) and len(x.args[0].elts) == 2:
+                    return True
+                if tail in ("array", "asarray", "ascontiguousarray") and x.args:
+                    return two_d(x.args[0])
+            return False
+
+        bare_rows = isinstance(e, (ast.ListComp, ast.List, ast.GeneratorExp)) or (isinstance(e, ast.Call) and (call_name(e) or "").split(".")[-1] in ("array", "asarray", "list", "tuple")
+                                                                                  and e.args and isinstance(e.args[0], (ast.ListComp, ast.List, ast.GeneratorExp)))
+        key = f"{fy.key}:coordinates-keep-shape-for-zero-atoms"
+        if two_d(e):
+            chk.ok("C08.R2", key, fy.where(node), f"`{shown}` is explicitly (n, 3)")
+        elif bare_rows:
+            chk.fail("C08.R2", key, fy.where(node), f"the coordinates enter the geometry as `{shown}`, a list of rows: for a block with 0 atoms this is `[]`, an array of shape (0,), "
+                     "which cannot be broadcast into the (0, 3) coordinate array - `0\\n<comment>\\n`, which dump_xyz writes for an empty geometry, cannot be read back (ValueError)")
+        else:
+            raise AnalysisError(f"{fy.key}: cannot tell the shape of `{shown}` for an empty block")
 
 
 def r4_terminal(chk):
